@@ -239,8 +239,10 @@ pub static COV_HEADS_ANNOUNCED: AtomicU64 = AtomicU64::new(0);
 pub static COV_WINDOW_STOP: AtomicU64 = AtomicU64::new(0);
 pub static COV_STORE_CALL_PRUNES: AtomicU64 = AtomicU64::new(0);
 pub static COV_REPLAN_AFTER_AGING: AtomicU64 = AtomicU64::new(0);
+pub static COV_REALTIME_RETRIES: AtomicU64 = AtomicU64::new(0);
 
 pub fn coverage_into(rep: &mut Report) {
+    rep.extra("realtime_config_attempts_repeated_because_stalled", serde_json::json!(COV_REALTIME_RETRIES.load(Ordering::Relaxed)));
     for (k, c) in [
         ("cov:batches-checked", &COV_BATCHES),
         ("cov:header-requests-checked", &COV_REQUESTS),
@@ -473,6 +475,9 @@ struct Sys<'a> {
     /// wall clock taken before the current environment event was injected
     t_action: Time,
     slept: bool,
+    started: std::time::Instant,
+    /// real time from `started` to the begin of the deliberate real sleep
+    pre_phase: Option<Duration>,
     outstanding: VecDeque<Req>,
     /// range requests drained but not yet checked
     pending_fresh: Vec<(u64, u64)>,
@@ -1057,6 +1062,7 @@ impl<'a> Sys<'a> {
             }
             Act::RealSleep => {
                 let d = self.cfg.aging.expect("menu").sleep;
+                self.pre_phase = Some(self.started.elapsed());
                 std::thread::sleep(d);
                 self.slept = true;
                 self.trace.push("real-sleep".into());
@@ -1078,7 +1084,9 @@ fn describe(acts: &[Act]) -> String {
         .join(" ")
 }
 
-async fn exec_async(cfg: &SysCfg, ch: &Chains, chooser: Chooser) -> Exec {
+/// Returns the execution and, for the real-time configuration, how much REAL time had passed
+/// since `started` when the deliberate sleep began (or when the execution ended without one).
+async fn exec_async(cfg: &SysCfg, ch: &Chains, chooser: Chooser, started: std::time::Instant) -> (Exec, Duration) {
     let p2p = VP2p::new();
     let store = Arc::new(InMemoryStore::new());
     let mut max_prefilled = 0;
@@ -1105,7 +1113,10 @@ async fn exec_async(cfg: &SysCfg, ch: &Chains, chooser: Chooser) -> Exec {
     let syncer = match start_syncer(&p2p, choice_store, cfg.batch, window, window + Duration::from_secs(3600), &ev) {
         Ok(s) => s,
         Err(e) => {
-            return Exec::from_chooser(take_chooser(&hook), "start-failed", 0, vec![viol("machinery-start-failed", e.to_string())], 0);
+            return (
+                Exec::from_chooser(take_chooser(&hook), "start-failed", 0, vec![viol("machinery-start-failed", e.to_string())], 0),
+                started.elapsed(),
+            );
         }
     };
     let mut sys = Sys {
@@ -1118,6 +1129,8 @@ async fn exec_async(cfg: &SysCfg, ch: &Chains, chooser: Chooser) -> Exec {
         syncer,
         t_action: Time::now(),
         slept: false,
+        started,
+        pre_phase: None,
         outstanding: VecDeque::new(),
         pending_fresh: vec![],
         connected: false,
@@ -1216,7 +1229,8 @@ async fn exec_async(cfg: &SysCfg, ch: &Chains, chooser: Chooser) -> Exec {
     let obs = fnv64(sys.trace.join("|").as_bytes());
     let n = sys.n_events as u64;
     let class = if !sys.viol.is_empty() { "violated" } else { class };
-    Exec::from_chooser(chooser, class, obs, sys.viol, n)
+    let pre_phase = sys.pre_phase.unwrap_or_else(|| started.elapsed());
+    (Exec::from_chooser(chooser, class, obs, sys.viol, n), pre_phase)
 }
 
 /// One complete execution under the choice sequence `prefix` (then defaults).
@@ -1228,17 +1242,40 @@ pub fn run_exec(cfg: &SysCfg, ch: &Chains, prefix: &[u32], keep_labels: bool) ->
             .start_paused(true)
             .build()
             .expect("runtime");
-        let owned;
-        let ch = match cfg.aging {
-            // header times are relative to the start of this very execution
-            Some(a) => {
-                owned = Chains::build_aging(cfg.total, a.window, a.inside).expect("aging fixture");
-                &owned
-            }
-            None => ch,
+        let Some(a) = cfg.aging else {
+            let (x, _) = rt.block_on(exec_async(cfg, ch, Chooser::new(prefix, keep_labels), std::time::Instant::now()));
+            drop(rt);
+            return x;
         };
-        let x = rt.block_on(exec_async(cfg, ch, Chooser::new(prefix, keep_labels)));
         drop(rt);
+        // Real-time configuration: header times are relative to the start of this very
+        // execution.  The execution is only meaningful (and deterministic) if everything before
+        // the deliberate sleep happened while the headers were still inside the window, i.e.
+        // within `inside` of real time; an attempt that was stalled longer is thrown away and
+        // repeated (a stall cannot cause a false alarm, see `is_old`, but it changes what the
+        // syncer does and hence the menu).
+        let limit = a.inside.mul_f32(0.8);
+        let mut last = None;
+        for _attempt in 0..8 {
+            let rt = tokio::runtime::Builder::new_current_thread()
+                .enable_time()
+                .start_paused(true)
+                .build()
+                .expect("runtime");
+            let started = std::time::Instant::now();
+            let owned = Chains::build_aging(cfg.total, a.window, a.inside).expect("aging fixture");
+            let (x, pre) = rt.block_on(exec_async(cfg, &owned, Chooser::new(prefix, keep_labels), started));
+            drop(rt);
+            if pre < limit {
+                return x;
+            }
+            COV_REALTIME_RETRIES.fetch_add(1, Ordering::Relaxed);
+            last = Some(x);
+        }
+        let mut x = last.expect("attempted");
+        x.diverged = Some(format!(
+            "real-time configuration: 8 attempts in a row were stalled for more than {limit:?} of real time before the deliberate sleep; the machine is too slow/overloaded for this configuration"
+        ));
         x
     });
     match r {
@@ -1276,7 +1313,7 @@ pub fn explore_cfg(cfg: &SysCfg, ch: &Chains, bound: usize, wall_cap: Duration, 
     // executions of the real-time configuration block in real sleeps: overlap them on a pool
     // wider than the core count
     let pool = match cfg.aging {
-        Some(_) => Some(rayon::ThreadPoolBuilder::new().num_threads(32).build().map_err(|e| e.to_string())?),
+        Some(_) => Some(rayon::ThreadPoolBuilder::new().num_threads(64).build().map_err(|e| e.to_string())?),
         None => None,
     };
     let explore = |dc: &DevConfig, rep: &mut Report| -> Result<(), String> {
